@@ -406,12 +406,20 @@ def h_append_enumerator(prog, rng):
     return q, Expect("append-enumerator", affected=[u.name for u in users], type_name=t.key(), entity=nm)
 
 
+def _defines_anonymous(t):
+    while isinstance(t, (progen.Pointer, progen.Qualified, progen.Array)):
+        t = t.elem if isinstance(t, progen.Array) else t.to
+    return isinstance(t, (Record, Enum)) and t.name is None
+
+
 def h_rename_typedef(prog, rng):
     """A parameter / member declared with typedef T is re-declared with typedef T2 of the same underlying type."""
     cands = []
     for f in prog.exported_functions():
         for k, p in enumerate(f.ftype.params):
-            if isinstance(p, Typedef) and not isinstance(progen.resolve(p), (FuncType,)):
+            # (a typedef whose target is an anonymous struct / enum defined in place *names* that type: declaring a second
+            # one would define a second, distinct type - not a harmless rename)
+            if isinstance(p, Typedef) and not isinstance(progen.resolve(p), (FuncType,)) and not _defines_anonymous(p.to):
                 cands.append((f, k))
     if not cands:
         return None
